@@ -47,6 +47,9 @@ def sdv__str(glob_pattern: StringSdv) -> MatcherSdv[str]:
 
 
 def _match_path(model: Path, pattern: str) -> bool:
+    if not pattern:
+        # pathlib does not accept the empty pattern - it matches no path (as it matches no name)
+        return False
     return model.match(pattern)
 
 
